@@ -67,15 +67,21 @@ func init() {
 			kinds := []int{6, 8, 26}
 			return []engine.Phase{
 				{Name: "fixed-stencils", ShardDepth: 2, Bounds: engine.Bounds{InputDev: -1},
-					Rule: "full product h x (x,y) in HIdx(h)^2 x v in {0,h,35} x f in VIdxSmall(v) x stencil in {6,8,26}; set and multiset size vs model, exact count and self-exclusion where 3 <= 2^h, symmetry b in N(a) => a in N(b); non-trivial = distinct cases where some offset wraps",
+					Rule: "full product h x (x,y) in HIdx(h)^2 x v in {0,h,35} x f in VIdxSmall(v) (thorough: v in the 15 edge zooms x f in VIdx(v)) x stencil in {6,8,26}; set and multiset size vs model, exact count and self-exclusion where 3 <= 2^h, symmetry b in N(a) => a in N(b); non-trivial = distinct cases where some offset wraps",
 					Body: func(c *engine.Ctx) {
 						h := zs[c.In("h", len(zs))]
 						hx := alpha.HIdx(h)
 						x := hx[c.In("x", len(hx))]
 						y := hx[c.In("y", len(hx))]
 						vs := []int64{0, h, 35}
+						if tier == "thorough" {
+							vs = alpha.Zedge
+						}
 						v := vs[c.In("v", len(vs))]
 						fs := alpha.VIdxSmall(v)
+						if tier == "thorough" {
+							fs = alpha.VIdx(v)
+						}
 						f := fs[c.In("f", len(fs))]
 						kind := kinds[c.In("stencil", 3)]
 						in := ref.Vox{H: h, X: x, Y: y, V: v, F: f}
@@ -133,7 +139,7 @@ func init() {
 						}
 					}},
 				{Name: "n-layers", ShardDepth: 2, Bounds: engine.Bounds{InputDev: -1},
-					Rule: "full product h in small zoom set x base voxel x list shape in {single, face-adjacent pair, identical twice, diagonal pair, triple, three mixed-zoom lists with entries on the edge of their own grid} x hLayers,vLayers in 0..4 (result <= 4000 ids); set = comprehension over the model, duplicate-free, exact count (2H+1)^2(2V+1)-1 and self-exclusion for a single voxel where 2H+1 <= 2^h; non-trivial = distinct cases with both layer counts > 0",
+					Rule: "full product h in small zoom set x base voxel x list shape in {single, face-adjacent pair, identical twice, diagonal pair, triple, three mixed-zoom lists with entries on the edge of their own grid} x hLayers,vLayers in 0..4 (thorough: 0..6, base x,y in HIdx, f in VIdxSmall); set = comprehension over the model, duplicate-free, exact count (2H+1)^2(2V+1)-1 and self-exclusion for a single voxel where 2H+1 <= 2^h; non-trivial = distinct cases with both layer counts > 0",
 					Body: func(c *engine.Ctx) {
 						hs := []int64{0, 1, 2, 3, 4, 16, 35}
 						if tier == "thorough" {
@@ -141,10 +147,16 @@ func init() {
 						}
 						h := hs[c.In("h", len(hs))]
 						hx := alpha.HIdxSmall(h)
+						fsel := []int64{0, -1}
+						nl := 5
+						if tier == "thorough" {
+							hx = alpha.HIdx(h)
+							fsel = alpha.VIdxSmall(h)
+							nl = 7
+						}
 						x := hx[c.In("x", len(hx))]
 						y := hx[c.In("y", len(hx))]
-						fsel := []int64{0, -1}
-						f := fsel[c.In("f", 2)]
+						f := fsel[c.In("f", len(fsel))]
 						base := ref.Vox{H: h, X: x, Y: y, V: h, F: f}
 						shape := c.In("shape", 8)
 						var list []ref.Vox
@@ -174,8 +186,8 @@ func init() {
 								list = []ref.Vox{fineBig, base, coarseEdge}
 							}
 						}
-						H := int64(c.In("hLayers", 5))
-						V := int64(c.In("vLayers", 5))
+						H := int64(c.In("hLayers", nl))
+						V := int64(c.In("vLayers", nl))
 						ids := ref.Exts(list)
 						got, err := operated.GetNspatialIdsAroundVoxcels(ids, H, V)
 						call := fmt.Sprintf("operated.GetNspatialIdsAroundVoxcels(%s, %d, %d)", goList(ids), H, V)
